@@ -100,6 +100,15 @@ def run_case(ctx, q, tables, route, label, mon):
     ctx.case((text, gen.table_digest(mt), route), nontrivial)
     ctx.count(f'route.{route}')
     ctx.count('obs.groups_formed', ngroups)
+    if hash(case['statement']) % 5 == 0:
+        # re-execution on the same connection gives the same rows (no state kept between executions)
+        try:
+            _, _, rows_again = engine.run(conn, ir.to_text(q) if route == 'text' else ir.to_ast(q))
+            ctx.count('obs.reexecutions')
+            if not same_rows(rows_again, rows):
+                ctx.violation('c02.reexecution_differs', f'{case["statement"]}: a second execution on the same connection returns different rows', case)
+        except Exception as exc:  # noqa: BLE001
+            ctx.violation('c02.reexecution_differs', f'{case["statement"]}: a second execution raised {exc!r}', case)
     ctx.count('obs.groups_removed_by_having', ngroups - len(mrows))
     ctx.count('obs.aggregator_events', len(mon.agg_events))
     ctx.counters['obs.max_groups_per_query'] = max(ctx.counters.get('obs.max_groups_per_query', 0), ngroups)
